@@ -9,7 +9,8 @@ FRESH = ["zz9", "renamed_1", "q7_", "NewName"]
 def gen_rename(rng, tier):
     out = []
     for _ in range(c05.n_programs(tier, quick=300)):
-        ws = c05.gen_twin_workspace(rng) if rng.random() < 0.08 else c05.gen_workspace(rng)
+        k = rng.random()
+        ws = c05.gen_twin_workspace(rng) if k < 0.08 else (c05.gen_returned_local_workspace(rng) if k < 0.12 else c05.gen_workspace(rng))
         steps = c05.cursor_steps(["rename"], ws, rng, newname=rng.choice(FRESH))
         out.append(c05.make_case([(fn, text) for fn, text, _ in ws], steps))
     return out
